@@ -164,6 +164,40 @@ func (c *Ctx) statParams() (docs, freq int, site ssa.CallInstruction) {
 			}
 		}
 	}
+	if docs >= 0 {
+		return
+	}
+	// or: the uvarints of the record are put one by one (binary.PutUvarint(buf, v) + Write):
+	// the last two that carry lookups in two different map parameters, in program order
+	type put struct {
+		call  *ssa.Call
+		param int
+	}
+	var puts []put
+	for _, b := range pf.Blocks {
+		for _, ins := range b.Instrs {
+			call, ok := ins.(*ssa.Call)
+			if !ok || call.Call.StaticCallee() == nil || funcFullName(call.Call.StaticCallee()) != "encoding/binary.PutUvarint" {
+				continue
+			}
+			v := stripConv(call.Call.Args[1])
+			pi := -1
+			switch x := v.(type) {
+			case *ssa.Lookup:
+				if pp, ok := x.X.(*ssa.Parameter); ok && pp.Type().String() == "map[uint16]uint64" {
+					pi = paramIndex(pp)
+				}
+			case *ssa.Call:
+				if pp := accessorMap(x); pp != nil && pp.Type().String() == "map[uint16]uint64" {
+					pi = paramIndex(pp)
+				}
+			}
+			puts = append(puts, put{call, pi})
+		}
+	}
+	if n := len(puts); n >= 2 && puts[n-2].param >= 0 && puts[n-1].param >= 0 && puts[n-2].param != puts[n-1].param && before(puts[n-2].call, puts[n-1].call) {
+		docs, freq, site = puts[n-2].param, puts[n-1].param, puts[n-1].call
+	}
 	return
 }
 
@@ -647,6 +681,20 @@ func init() {
 			for _, b := range cs.Blocks {
 				if ifi, ok := b.Instrs[len(b.Instrs)-1].(*ssa.If); ok {
 					if bin, ok := ifi.Cond.(*ssa.BinOp); ok {
+						// the field id obtained as a signed number, -1 for an unknown field (a helper that
+						// returns int(fieldsMap[name]) - 1): known exactly when id >= 0 / id > -1 / id != -1
+						if k, isK := constInt(bin.Y); isK && ownFieldID(c, bin.X, cs.Params[0], 0) && !isUnsigned(bin.X.Type()) {
+							var g *ssa.BasicBlock
+							switch {
+							case bin.Op == token.GEQ && k == 0, bin.Op == token.GTR && k == -1, bin.Op == token.NEQ && k == -1:
+								g = b.Succs[0]
+							case bin.Op == token.LSS && k == 0, bin.Op == token.LEQ && k == -1, bin.Op == token.EQL && k == -1:
+								g = b.Succs[1]
+							}
+							if g != nil && len(g.Preds) == 1 {
+								guard = g
+							}
+						}
 						lk, isLk := bin.X.(*ssa.Lookup)
 						k, isK := constInt(bin.Y)
 						if isLk && isK && k == 0 && strings.HasSuffix(accessPath(lk.X), ".fieldsMap") {
@@ -1176,4 +1224,9 @@ func (c *Ctx) throughStruct(v ssa.Value) ssa.Value {
 		return v
 	}
 	return found
+}
+
+func isUnsigned(t types.Type) bool {
+	b, ok := t.Underlying().(*types.Basic)
+	return ok && b.Info()&types.IsUnsigned != 0
 }
